@@ -195,6 +195,12 @@ func genRich(t *core.Tape, tier, prop string) *Scenario {
 	}
 	if fail {
 		p.HErr = genErrPlan(t, sc.Notes, p.bin)
+		if prop == "C02" && len(p.HErr.Details) > 0 && t.Bool(1, 6, "detail.not.linked") {
+			// a gateway passing on an upstream error: one detail's message type
+			// is not linked into this binary
+			p.HErr.Details[t.Choose(len(p.HErr.Details), "detail.not.linked.which")].Kind = 4
+			sc.Notes["detail_type_not_linked"]++
+		}
 		if shared && !p.HErr.Plain {
 			if p.HErr.Meta == nil {
 				p.HErr.Meta = http.Header{}
@@ -420,7 +426,19 @@ func checkC02(w *World, st core.Status, r *RunResult) []Violation {
 			continue
 		}
 		tag := cfgTag(w, o)
+		notLinked := false
+		if p.HErr != nil && p.Raw == nil && w.Sc.Clients[p.Client].Proto == PConnect {
+			for _, d := range p.HErr.Details {
+				notLinked = notLinked || d.Kind == 4
+			}
+		}
 		add := func(class, msg string) {
+			if notLinked {
+				// one identifiable input (known finding: this era's Connect wire
+				// format spells details out in JSON, which needs the type)
+				class = "unlinked-detail-type"
+				msg = "the error carries a detail whose message type is not linked into the binary: " + msg
+			}
 			vs = append(vs, Violation{Class: "C02/" + class + "/" + tag, Msg: p.ID + ": " + msg})
 		}
 		if p.HErr == nil {
@@ -459,7 +477,7 @@ func checkC02(w *World, st core.Status, r *RunResult) []Violation {
 				add("details-count", fmt.Sprintf("want %d details, got %d", len(p.HErr.Details), len(got)))
 			} else {
 				for i, d := range p.HErr.Details {
-					want, _ := anypb.New(d.message())
+					want, _ := d.any()
 					ga, ok := got[i].(*anypb.Any)
 					if !ok {
 						add("details-type", fmt.Sprintf("detail %d is %T", i, got[i]))
